@@ -93,6 +93,16 @@ type Ctl struct {
 	FirstSite string // function of the wallet that made the first failing call
 	Trace     []Kind // kinds of the numbered calls since Arm (when tracing)
 	tracing   bool
+	// fault sets and call descriptions (ArmSet, see set.go)
+	failSet    map[int]bool // call numbers that fail in addition to failAt..failAt+failCount-1
+	infoOn     bool         // record Info: kind, calling functions and key of every numbered call
+	Info       []CallInfo   // the numbered calls since ArmSet (when infoOn)
+	InjectedAt []int        // numbers of the calls that failed since Arm / ArmSet
+	Killed     bool         // Kill was called (see set.go)
+	filtered   bool         // Skip / Hold active (see set.go)
+	skipSub    string
+	holdSub    string
+	holdCh     chan struct{}
 
 	// totals (statistics)
 	Total [nKinds]int
@@ -109,6 +119,7 @@ func (c *Ctl) Arm(failAt, count int, trace bool) {
 	c.mu.Lock()
 	c.armed, c.calls, c.failAt, c.failCount, c.Injected, c.tracing = true, 0, failAt, count, 0, trace
 	c.Trace = nil
+	c.failSet, c.infoOn, c.Info, c.InjectedAt = nil, false, nil, nil
 	c.mu.Unlock()
 }
 
@@ -189,7 +200,13 @@ func (c *Ctl) enter() {
 }
 
 // call numbers one call; true = inject the fault.
-func (c *Ctl) call(k Kind) bool {
+func (c *Ctl) call(k Kind) bool { return c.callKey(k, nil) }
+
+// callKey is call for the calls that carry a key (Get / Put / Delete / GetByPrefix / bucket names).
+func (c *Ctl) callKey(k Kind, key []byte) bool {
+	if c.filter() {
+		return false
+	}
 	c.mu.Lock()
 	if c.crashed {
 		c.mu.Unlock()
@@ -204,8 +221,12 @@ func (c *Ctl) call(k Kind) bool {
 	if c.tracing {
 		c.Trace = append(c.Trace, k)
 	}
-	fail := c.failAt > 0 && c.calls >= c.failAt && c.calls < c.failAt+c.failCount
+	fail := (c.failAt > 0 && c.calls >= c.failAt && c.calls < c.failAt+c.failCount) || c.failSet[c.calls]
+	if c.infoOn {
+		c.Info = append(c.Info, CallInfo{Kind: k, Site: callChain(), Key: shortKey(key)})
+	}
 	if fail {
+		c.InjectedAt = append(c.InjectedAt, c.calls)
 		if c.Injected == 0 {
 			c.FirstKind = k
 			c.FirstSite = callSite()
@@ -310,7 +331,7 @@ func (t *wtx) FetchBucket(meta mwdb.BucketMeta) mwdb.Bucket {
 }
 
 func (t *wtx) CreateTopLevelBucket(name string) (mwdb.Bucket, error) {
-	if t.c.call(KCreateTop) {
+	if t.c.callKey(KCreateTop, []byte(name)) {
 		return nil, ErrInjected
 	}
 	b, err := t.in.CreateTopLevelBucket(name)
@@ -362,7 +383,7 @@ func wrapBucket(c *Ctl, b mwdb.Bucket) mwdb.Bucket {
 }
 
 func (b *wbucket) NewBucket(name string) (mwdb.Bucket, error) {
-	if b.c.call(KNewBucket) {
+	if b.c.callKey(KNewBucket, []byte(name)) {
 		return nil, ErrInjected
 	}
 	nb, err := b.in.NewBucket(name)
@@ -385,28 +406,28 @@ func (b *wbucket) BucketNames() ([]string, error) {
 }
 
 func (b *wbucket) DeleteBucket(name string) error {
-	if b.c.call(KDeleteBucket) {
+	if b.c.callKey(KDeleteBucket, []byte(name)) {
 		return ErrInjected
 	}
 	return b.in.DeleteBucket(name)
 }
 
 func (b *wbucket) Put(key, value []byte) error {
-	if b.c.call(KPut) {
+	if b.c.callKey(KPut, key) {
 		return ErrInjected
 	}
 	return b.in.Put(key, value)
 }
 
 func (b *wbucket) Delete(key []byte) error {
-	if b.c.call(KDelete) {
+	if b.c.callKey(KDelete, key) {
 		return ErrInjected
 	}
 	return b.in.Delete(key)
 }
 
 func (b *wbucket) Get(key []byte) ([]byte, error) {
-	if b.c.call(KGet) {
+	if b.c.callKey(KGet, key) {
 		return nil, ErrInjected
 	}
 	return b.in.Get(key)
@@ -420,7 +441,7 @@ func (b *wbucket) Clear() error {
 }
 
 func (b *wbucket) GetByPrefix(p []byte) ([]*mwdb.Entry, error) {
-	if b.c.call(KGetByPrefix) {
+	if b.c.callKey(KGetByPrefix, p) {
 		return nil, ErrInjected
 	}
 	return b.in.GetByPrefix(p)
